@@ -512,6 +512,8 @@ func main() {
 		ev.Harness("replaying one history twice diverged: %q/%q vs %q/%q", c1, o1, c2, o2)
 	}
 
+	// the (cheap) E3 part first, so that an internal deadline under load cuts the deep end of the BFS and not this
+	concurrentPart(r, "v2.5.0")
 	for _, ver := range versions {
 		v := ver
 		seqx.Explore(r, seqx.Scenario[event]{
@@ -521,7 +523,6 @@ func main() {
 			MaxDepth: depth, Workers: 16,
 		})
 	}
-	concurrentPart(r, "v2.5.0")
 	r.Set("traces_validated_against_impl", r.Count("transitions"))
 	r.Set("reloads_applied", stApplied.Load())
 	r.Set("reloads_applied_with_startup_warning", stAppliedWarn.Load())
